@@ -1,4 +1,12 @@
 ------------------------------ MODULE MC_C05 ------------------------------
 EXTENDS Ext, Json
 Emit == Done => PrintT(<<"CASE", ToJson([kind |-> kind, implied |-> implied, nested |-> nested, layout |-> layout])>>)
+\* header points: every TAGS clause (and none) x EXTENSIBILITY IMPLIED on/off x kind x nesting x {no marker, marker and one addition};
+\* the main sweep above writes AUTOMATIC TAGS.  A plain product, emitted once from the initial state.
+R == [t |-> "r", n |-> 1, ver |-> FALSE]
+HeaderLayouts == {<<R>>, <<R, [t |-> "m", n |-> 0, ver |-> FALSE], [t |-> "a", n |-> 1, ver |-> FALSE]>>}
+HeaderPoints == {[kind |-> k, implied |-> ImpliedOf(h), nested |-> n, layout |-> y, tags |-> h.tags] :
+                   k \in Kinds, h \in Headers, n \in BOOLEAN, y \in HeaderLayouts}
+EmitHeader == (phase = "cfg") => \A p \in HeaderPoints : PrintT(<<"CASE", ToJson(p)>>)
+ASSUME Cardinality(HeaderPoints) = 128
 =============================================================================
